@@ -70,6 +70,13 @@ def gen_case(rnd, force_all=False):
             "newvals": {k: gen.nice(rnd, 1e-3, 1e3) for k in params}}
 
 
+SANITIZE_TIERS = ("thorough",)
+
+
+def sanitize_subset(cases):
+    return cases[:250]
+
+
 def generate(tier, seed):
     rnd = util.rng(PROPERTY, tier, seed, "cases")
     n = 400 if tier == "quick" else 12000
